@@ -54,6 +54,7 @@ structure St where
   ubis : Nat := 0
   ubiConverted : Nat := 0
   ubiRemoved : Nat := 0
+  ubiShifted : Nat := 0
   restarts : Nat := 0
   rsOps : Nat := 0
   rstore : BrarLife.Store String := {}
@@ -466,7 +467,7 @@ def step (s : St) (line : String) : IO St := do
     if srt (kvS rest "live") == srt (kvS rest "reloaded") then return s
     else monitor s "justice-complete" s!"ctx={kvS rest "ctx"} after restart served={kvS rest "reloaded"} before restart={kvS rest "live"}"
   | "lifeend" :: rest =>
-    let s := { s with evals := s.evals + 1 }
+    let s := { s with evals := s.evals + 1, ubiShifted := s.ubiShifted + kvN rest "shifted" }
     if resOf ws == "0" then return s
     else monitor s "justice-complete" s!"ctx={kvS rest "ctx"} all our justice transactions confirmed but outputs are still served: {kvS rest "left"}"
   | "life" :: rest => mismatch s s!"life cycle ctx={kvS rest "ctx"}: {resOf ws}"
@@ -532,6 +533,7 @@ def main : IO Unit := do
   IO.println s!"STAT update_breach_info_calls={s.ubis}"
   IO.println s!"STAT second_level_conversions={s.ubiConverted}"
   IO.println s!"STAT outputs_swept_by_us={s.ubiRemoved}"
+  IO.println s!"STAT second_level_spends_at_input_index_gt0={s.ubiShifted}"
   IO.println s!"STAT retribution_store_ops={s.rsOps}"
   IO.println s!"STAT restarts={s.restarts}"
   IO.println s!"STAT retributions={s.retrs}"
